@@ -121,6 +121,15 @@ def materialize(rc) -> bytes:
             out.append(w)
             ln += len(w) + 1
         return (" ".join(out).encode() + b" " * n)[:n]
+    if tex == "calls":
+        # nothing but x86 CALL/JMP rel32 instructions whose operands the BCJ filter converts (high byte 00 / FF), after a
+        # prefix of 0..4 bytes: wherever a piece or the stream ends, an operand straddles the cut
+        # "skip": this member is the slice [skip, skip+len) of the stream, so that consecutive members of one folder continue it
+        skip = rc.get("skip", 0)
+        out = bytearray(r.getrandbits(8 * 4).to_bytes(4, "little")[: r.randrange(5)])
+        while len(out) < skip + n:
+            out += bytes([r.choice([0xE8, 0xE9])]) + r.getrandbits(24).to_bytes(3, "little") + bytes([r.choice([0x00, 0xFF])])
+        return bytes(out[skip:skip + n])
     if tex == "code":
         # machine-code-like: call/jump opcodes of several ISAs followed by plausible displacements
         out = bytearray()
